@@ -75,6 +75,15 @@ class Opaque(object):
         return 'Opaque(%s)' % self.why
 
 
+class OpaqueSeq(Opaque):
+    """Unknown list/tuple whose LENGTH is tracked (term): enough to prove `while xs: ...; xs = xs[k:]` loops."""
+    __slots__ = ('len',)
+
+    def __init__(self, ln, why='', kind='list'):
+        Opaque.__init__(self, why, kind)
+        self.len = ln
+
+
 class Obj(object):
     """Heap object."""
     _ids = itertools.count(1)
